@@ -237,6 +237,7 @@ class Check:
     rule = ""
     extra_bins = ()
     search_budget_s = 120
+    impl_canon_from_driver = False   # driver returns the canonical projection of the impl observation as 4th item
 
     def shrink(self, case):
         return ()
@@ -348,10 +349,11 @@ class Check:
                         report["nontrivial"].add(k)
                     if len(report["samples"]) < 5 and (k is not None) and report["evaluations"] % 97 in (1, 2, 3):
                         report["samples"].append({"case": self.show(c), "impl_obs": _jsonable(self.canon(o))})
-                    if self.canon(o) != m:
+                    io_c = rest[0] if (self.impl_canon_from_driver and rest) else self.canon(o)
+                    if io_c != m:
                         report["disagreements"] += 1
                         if disagree_first is None:
-                            disagree_first = (c, _jsonable(self.canon(o)), _jsonable(m))
+                            disagree_first = (c, _jsonable(io_c), _jsonable(m))
                     if fm and model_fail_first is None and self.model_should_hold(c):
                         model_fail_first = (c, fm)
                     if fi:
@@ -478,7 +480,7 @@ class Check:
             print("build ok" if build.ok else f"build broken: {build.broken}")
             return 0 if build.ok else 1
         case = _unpickle_b64(doc["case_pickle"])
-        (c, o, m, fm, fi, _), = self.evaluate([case])
+        (c, o, m, fm, fi, rest_), = self.evaluate([case])
         print("case      :", json.dumps(self.show(c), default=repr))
         print("impl obs  :", _jsonable(self.canon(o)))
         print("model obs :", _jsonable(m))
@@ -487,7 +489,7 @@ class Check:
         if fi:
             print(f"VIOLATION property={self.ident} replay={path}")
             return 1
-        if self.canon(o) != m:
+        if (rest_[0] if (self.impl_canon_from_driver and rest_) else self.canon(o)) != m:
             print(f"VIOLATION property={self.ident} replay={path} no-failing-input-found")
             return 1
         return 0
